@@ -145,10 +145,13 @@ def _split_part(e):
     e = strip_refs(e)
     if e[0] == "field" and e[2] in ("0", "1"):
         p = strip_refs(e[1])
+        c = None
         if p[0] == "field" and p[2] == "0" and p[1][0] == "downcast" and p[1][2] == "Some":
             c = strip_refs(p[1][1])
-            if c[0] == "call" and (c[1].endswith("::split_first") or c[1].endswith("::split_first_mut")):
-                return "first" if e[2] == "0" else "rest"
+        elif p[0] == "call" and (p[1].endswith("Option::<T>::unwrap") or p[1].endswith("Option::<T>::expect")) and p[2]:
+            c = strip_refs(p[2][0])          # `.split_first().unwrap()`
+        if c is not None and c[0] == "call" and (c[1].endswith("::split_first") or c[1].endswith("::split_first_mut")):
+            return "first" if e[2] == "0" else "rest"
     return None
 
 
@@ -158,6 +161,10 @@ def element_index(e):
     e = strip_refs(e)
     if e[0] == "call" and (e[1].endswith("::index") or e[1].endswith("::index_mut")) and len(e[2]) == 2:
         return _const_usize(e[2][1])
+    if e[0] == "index":                       # `slice[k]` is a place projection, not a call
+        return _const_usize(e[2])
+    if e[0] == "cidx":
+        return e[2] if isinstance(e[2], int) and e[2] >= 0 else None
     if _split_part(e) == "first":
         return 0
     if e[0] == "field" and e[2] == "0" and e[1][0] == "downcast" and e[1][2] == "Some":
